@@ -43,7 +43,7 @@ def statusIntent (sp : USpec) (result : String) (callName : String) : Status →
   | .report .. => fun w =>
     -- the `add` applies master|info; the follow-up `update` (port discovery) adds port_retry
     if callName == "add" then Status.update w (Status.master ||| Status.info)
-    else if Status.has w (Status.port ||| Status.portRetry) then w else Status.update w Status.portRetry
+    else if Status.hasAny w (Status.port ||| Status.portRetry) then w else Status.update w Status.portRetry
   | .renew .. => id
   | _ => fun w => let _ := result; w
 
